@@ -127,9 +127,11 @@ let () =
   let path = Sys.argv.(1) in
   let verbose = Array.length Sys.argv > 2 && Sys.argv.(2) = "-v" in
   let lines = read_lines path in
-  let n = ref 0 and mism = ref 0 and viol = ref 0 and persisted = ref 0 and endtests = ref 0 in
+  let n = ref 0 and mism = ref 0 and viol = ref 0 and persisted = ref 0 and endtests = ref 0 and skipped = ref 0 in
   List.iteri (fun ln line ->
-      if String.trim line <> "" then begin
+      (* "S ...": a tick case in which the flusher did not show up in time; nothing was observed *)
+      if String.length line > 1 && line.[0] = 'S' && line.[1] = ' ' then incr skipped
+      else if String.trim line <> "" then begin
         incr n;
         match (try Ok (parse_case line) with Bad m -> Error m | Failure m -> Error m | Not_found -> Error "parse") with
         | Error m ->
@@ -165,4 +167,4 @@ let () =
                 List.iteri (fun i o -> List.iter (fun p -> Printf.printf "  obs %d: %s\n" i (show_full p)) o.oo_persisted) c.obs;
               Printf.printf "VIOL %d %s :: c15_ok_w=false; %s\n" (ln + 1) (clip line) !expl end
       end) lines;
-  Printf.printf "SUMMARY cases=%d mismatches=%d violations=%d persisted_points=%d endtests=%d\n" !n !mism !viol !persisted !endtests
+  Printf.printf "SUMMARY cases=%d mismatches=%d violations=%d persisted_points=%d endtests=%d skipped=%d\n" !n !mism !viol !persisted !endtests !skipped
